@@ -12,6 +12,8 @@ LitL(ns)    == Lit(ListV([j \in 1..Len(ns) |-> IntV(ns[j])]))
 LitNone     == Lit(NoneV)
 At(e, a)    == [k |-> "attr", e |-> e, a |-> a]
 Idx(e, n)   == [k |-> "idx", e |-> e, key |-> IntV(n)]
+IdxK(e, kv) == [k |-> "idx", e |-> e, key |-> kv]              \* x.d["a"]: a dict field indexed by a string key
+StrV(s)     == [t |-> "str", v |-> s]
 NoArg       == [t |-> "noarg", v |-> 0]
 MCall(e, m, arg) == [k |-> "mcall", e |-> e, m |-> m, arg |-> arg]
 Flat(j)     == [k |-> "flat", j |-> j]
@@ -70,7 +72,9 @@ MoreLeaves(x) ==
         CmpC("eq", At(At(x, "ref"), "n"), LitI(0)),
         CmpC("ge", At(At(x, "ref"), "m"), At(x, "n")),
         CmpC("eq", At(x, "o"), LitNone),
-        CmpC("eq", At(x, "o"), LitI(0)) >>
+        CmpC("eq", At(x, "o"), LitI(0)),
+        CmpC("eq", IdxK(At(x, "d"), StrV(<<1>>)), LitI(0)),
+        CmpC("lt", IdxK(At(x, "d"), StrV(<<2>>)), At(x, "n")) >>
 
 LeavesG1 == CoreLeaves(V(1)) \o MoreLeaves(V(1))
 
